@@ -37,7 +37,7 @@ def make_membrane(rng, mix, n_exp=None, stated=True):
     return pv.Membrane(name="verif_membrane", ideal_experiments=pv.IdealExperiments(experiments=exps))
 
 
-def make_curve_set(rng, mix, n_curves=None, n_points=None, ctype="weight", t_center=None):
+def make_curve_set(rng, mix, n_curves=None, n_points=None, ctype="weight", t_center=None, cluster_p=0.15):
     """A synthetic diffusion-curve set with composition- (and temperature-) dependent permeances."""
     n_curves = n_curves or rng.choice([1, 1, 2, 3])
     n_points = n_points or rng.randrange(4, 7)
@@ -49,6 +49,14 @@ def make_curve_set(rng, mix, n_curves=None, n_points=None, ctype="weight", t_cen
     lo = rng.uniform(0.03, 0.3)
     hi = rng.uniform(0.6, 0.97)
     xs = [lo + (hi - lo) * j / (n_points - 1) for j in range(n_points)]
+    if rng.random() < cluster_p:
+        # clustered measurements: a further point a hair (1e-5 .. 3e-3 of mass fraction) above an existing one - also next to the
+        # water-rich / water-lean end, where a small step in one basis is a large one in the other
+        if rng.random() < 0.5:
+            xs[-1] = rng.uniform(0.97, 0.995)
+        k = rng.randrange(len(xs))
+        xs.insert(k + 1, min(0.9995, xs[k] + gen.logu(rng, 1e-5, 3e-3)))
+        n_points = len(xs)
     curves = []
     # "not detectable": one or two measured permeances of the set are exactly 0 (they are data like any other point)
     zeros = set()
